@@ -80,33 +80,33 @@ theorem sayIndex_safe {s : State} (h : NoCont s) {a : Value} (ha : a.noCont) (k 
   | cont l => exact absurd ha id
   | arr rs => simp only; split <;> first | exact ok_safe (sayId_noCont h _ _) | exact ok_safe h
 
-theorem act_safe {cfg : Cfg} (hs : cfg.snapshot = true) (self : Option ObjId) {s : State} (h : NoCont s) (a : Act) :
-    (act cfg self s a).Safe := by
+theorem actCore_safe {cfg : Cfg} (hs : cfg.snapshot = true) (self : Option ObjId) {s : State} (h : NoCont s) (a : Act) :
+    (actCore cfg self s a).Safe := by
   cases a with
   | spawn n =>
-    simp only [act]
+    simp only [actCore]
     split
     · exact ok_safe h
     · split
       · exact ok_safe (spawnObj_noCont h)
       · exact ok_safe (say_noCont (setTargetName_noCont (spawnObj_noCont h) _ _) _)
   | setName w n =>
-    simp only [act]
+    simp only [actCore]
     split
     · exact ok_safe h
     · exact ok_safe h
     · exact ok_safe (setTargetName_noCont h _ _)
   | delete w =>
-    simp only [act]
+    simp only [actCore]
     split
     · exact ok_safe h
     · exact ok_safe h
     · exact ok_safe (destroy_noCont h _)
   | mark w =>
-    simp only [act]
+    simp only [actCore]
     split <;> exact ok_safe h
   | hello =>
-    simp only [act]
+    simp only [actCore]
     split <;> exact ok_safe h
   | capture v n =>
     refine ok_safe ?_
@@ -123,17 +123,28 @@ theorem act_safe {cfg : Cfg} (hs : cfg.snapshot = true) (self : Option ObjId) {s
     · subst e; rw [upd_same]; exact h w
     · rw [upd_other _ _ e]; exact h k
   | query src =>
-    simp only [act]
+    simp only [actCore]
     obtain ⟨z, hz⟩ := size_some (s := s) (evalSrc_noCont hs h src)
     obtain ⟨y, hy⟩ := elems_some (s := s) (evalSrc_noCont hs h src)
     rw [hz, hy]
     exact ok_safe (foldl_sayId_noCont _ h)
   | size src =>
-    simp only [act]
+    simp only [actCore]
     obtain ⟨z, hz⟩ := size_some (s := s) (evalSrc_noCont hs h src)
     rw [hz]
     exact ok_safe h
   | index src k => exact sayIndex_safe h (evalSrc_noCont hs h src) k
+
+theorem note_noCont (cfg : Cfg) {s : State} (h : NoCont s) (x : Option Src) : NoCont (note cfg s x) := by
+  unfold note
+  split
+  · split
+    · exact say_noCont h _
+    · exact h
+  · exact h
+
+theorem act_safe {cfg : Cfg} (hs : cfg.snapshot = true) (self : Option ObjId) {s : State} (h : NoCont s) (a : Act) :
+    (act cfg self s a).Safe := actCore_safe hs self (note_noCont cfg h _) a
 
 theorem acts_safe {cfg : Cfg} (hs : cfg.snapshot = true) (self : Option ObjId) (l : List Act) {s : State}
     (h : NoCont s) : (acts cfg self l s).Safe := by
@@ -192,13 +203,13 @@ theorem stmt_safe {cfg : Cfg} (hs : cfg.snapshot = true) {s : State} (h : NoCont
     (stmt cfg s st).Safe := by
   cases st with
   | act a => exact act_safe hs none h a
-  | fan src hd => exact fanOut_safe hs (fun st o hst => acts_safe hs (some o) hd hst) src h
+  | fan src hd => exact fanOut_safe hs (fun st o hst => acts_safe hs (some o) hd hst) src (note_noCont cfg h _)
   | fanName src n =>
     exact fanOut_safe hs (run := fun st o => .ok (setTargetName st o n))
-      (fun st o hst => ok_safe (setTargetName_noCont hst o n)) src h
+      (fun st o hst => ok_safe (setTargetName_noCont hst o n)) src (note_noCont cfg h _)
   | fanDelete src =>
-    exact fanOut_safe hs (run := fun st o => .ok (destroy st o)) (fun st o hst => ok_safe (destroy_noCont hst o)) src h
-  | fieldSet src x => exact fieldSet_safe hs src x h
+    exact fanOut_safe hs (run := fun st o => .ok (destroy st o)) (fun st o hst => ok_safe (destroy_noCont hst o)) src (note_noCont cfg h _)
+  | fieldSet src x => exact fieldSet_safe hs src x (note_noCont cfg h _)
 
 theorem run_safe {cfg : Cfg} (hs : cfg.snapshot = true) (l : List Stmt) {s : State} (h : NoCont s) :
     (run cfg l s).Safe := by
